@@ -18,7 +18,7 @@ fn base(name: &str, clients: usize, connected: Vec<usize>) -> EvCell {
         alphabet: vec![EvOp::Nop],
         rounds: 3,
         tick_choice: true,
-        env: EvEnv { hold_updates: 0, hold_events: true, reorder: true, drop_unreliable: true, hold_client_events: true, hold_mutations: false, hold_acks: false, update_latency: 0 },
+        env: EvEnv { hold_updates: 0, hold_events: true, reorder: true, drop_unreliable: true, hold_client_events: true, hold_mutations: false, hold_acks: false, update_latency: 0, update_batch: 0 },
         oracles: EvOracles { c05: true, ..Default::default() },
         closure_rounds: 4,
     }
@@ -92,7 +92,23 @@ pub fn cells(tier: Tier) -> Vec<CellPlan> {
         EvOp::EmitS(SK::E1, Mode::Broadcast, None),
         EvOp::EmitS(SK::T1, Mode::Broadcast, None),
     ];
-    c.env = EvEnv { hold_updates: 0, hold_events: false, reorder: false, drop_unreliable: false, hold_client_events: false, hold_mutations: false, hold_acks: false, update_latency: 2 };
+    c.env = EvEnv { hold_updates: 0, hold_events: false, reorder: false, drop_unreliable: false, hold_client_events: false, hold_mutations: false, hold_acks: false, update_latency: 2, update_batch: 0 };
+    c.tick_choice = false;
+    c.rounds = if q { 6 } else { 7 };
+    c.closure_rounds = 6;
+    v.push(plan(c, 0, 2.0));
+
+    // Update channel delivered in bursts (every 5th round): several queued tick groups are
+    // released in one frame together with directly deliverable newer events.
+    let mut c = base("order-burst5", 1, vec![0]);
+    c.init = vec![Op::Spawn(0, 1 << TA)];
+    c.alphabet = vec![
+        EvOp::Nop,
+        EvOp::World(Op::Ins(0, TB)),
+        EvOp::World(Op::Rm(0, TB)),
+        EvOp::EmitS(SK::E1, Mode::Broadcast, None),
+    ];
+    c.env = EvEnv { hold_updates: 0, hold_events: false, reorder: false, drop_unreliable: false, hold_client_events: false, hold_mutations: false, hold_acks: false, update_latency: 0, update_batch: 5 };
     c.tick_choice = false;
     c.rounds = if q { 6 } else { 7 };
     c.closure_rounds = 6;
